@@ -1,7 +1,7 @@
 /-
 Binary mappings (`new_binary_mapping`): identifiers, the `forbid(i, j)` clause, bit length.
 -/
-import Lemmas.FamBasic
+import Lemmas.C01Basic
 import CnfgenModel.Fam.Php
 import Batteries.Data.Nat.Lemmas
 namespace Cnfgen.Fam
